@@ -273,6 +273,11 @@ func c06Run(c *lib.Ctx) {
 	qs := uQueries(c06Words, depth)
 	qs = append(qs, c06Long()...)
 	qs = append(qs, uSpecialQueries...)
+	// words the index knows, spelt with the second capital form of a letter (U+212A KELVIN SIGN lower-cases
+	// to k) and glued to a neighbour by '.', '-' or '/', alone and in queries long enough to use up the
+	// enhancement budget: whatever the analysis does to such a word, the user's own term must survive
+	qs = append(qs, "networ\u212a.interface", "ma\u212ae-build", "pac\u212aage/setup", "\u212aeep.files", "loo\u212a networ\u212a",
+		"networ\u212a find files folder git install manage show directory", "find files folder git install manage show directory ma\u212ae", "ma\u212ae.build compress files folder git install manage show")
 	dbsC := c06DBs()
 	dbs := make([]*database.Database, len(dbsC))
 	var idx int64
